@@ -19,6 +19,7 @@ const (
 	kfMetaRecur   = "C04-metamethod-recursion-go-stack"
 	kfUnpackLen   = "C04-unpack-string-length-prefix"
 	kfReadHuge    = "C04-file-read-huge-count"
+	kfHandler     = "C04-message-handler-reentry"
 )
 
 // demonstrations: fixed inputs, independent of the generators
@@ -30,6 +31,7 @@ var kfDemo = map[string]Case{
 	kfLimitPanics: {Kind: "limit", Tmpl: "ctor-multi", N: 300},
 	kfMetaRecur:   {Kind: "recur", Tmpl: "index-function"},
 	kfUnpackLen:   {Kind: "lib", Fn: "string.unpack", Args: []string{"pk:s", `pkd:\xff\xff\xff\xff\xff\xff\xff\xff`}},
+	kfHandler:     {Kind: "recur", Tmpl: "xpcall-handler-error-in-metamethod"},
 	kfReadHuge:    {Kind: "lib", Fn: "<file-mt>.__index.read", Args: []string{"file", "maxint"}},
 }
 
@@ -60,6 +62,9 @@ func templateExcluded(known map[string]bool, c Case) string {
 		}
 		if tm.deepSource && known[kfParserDepth] {
 			return kfParserDepth
+		}
+		if tm.handlerReentry && known[kfHandler] {
+			return kfHandler
 		}
 	}
 	return ""
@@ -101,7 +106,7 @@ func kfLimitPanicClass(c Case) bool {
 
 func checkKnownFindings(rec *ev.Recorder) map[string]bool {
 	known := map[string]bool{}
-	ids := []string{kfFormatTrunc, kfFormatP, kfParserDepth, kfCodeSize, kfLimitPanics, kfMetaRecur, kfUnpackLen, kfReadHuge}
+	ids := []string{kfFormatTrunc, kfFormatP, kfParserDepth, kfCodeSize, kfLimitPanics, kfMetaRecur, kfUnpackLen, kfReadHuge, kfHandler}
 	var open []string
 	for _, id := range ids {
 		if ev.Open(id) {
@@ -120,7 +125,7 @@ func checkKnownFindings(rec *ev.Recorder) map[string]bool {
 	var cheap []string
 	for _, id := range open {
 		id := id
-		if id != kfParserDepth && id != kfMetaRecur {
+		if id != kfParserDepth && id != kfMetaRecur && id != kfHandler {
 			cheap = append(cheap, id)
 			continue
 		}
@@ -237,7 +242,7 @@ func superviseTemplates(rec *ev.Recorder, known map[string]bool) {
 					rec.NonTrivial(c.Key())
 				}
 				rec.Sample(map[string]any{"kind": c.Kind, "template": c.Tmpl, "n": c.N, "mem": c.Mem, "outcome": cls, "msg": clip(o.Msg, 120), "rets": clip(o.Rets, 80)})
-				fmt.Printf("%-6s %-28s n=%-8d mem=%-9d %-13s %s %s\n", c.Kind, c.Tmpl, c.N, c.Mem, cls, o.Note, clip(strings.ReplaceAll(o.Msg+o.Rets, "\n", " "), 100))
+				fmt.Printf("%-6s %-28s n=%-8d mem=%-9d %-13s %6.2fs %s\n", c.Kind, c.Tmpl, c.N, c.Mem, cls, o.Secs, clip(strings.ReplaceAll(o.Msg+o.Rets, "\n", " "), 100))
 				if r.msg != "" {
 					rec.Violation(c.Kind, c, fmt.Sprintf("%s template %s n=%d mem=%d: %s", c.Kind, c.Tmpl, c.N, c.Mem, r.msg))
 				}
